@@ -169,9 +169,53 @@ class SimFS:
         raise _err(errno.ENOENT, path)
 
     # -- open ------------------------------------------------------------------
+    # -- low-level descriptors (os.open / os.fdopen / os.write / os.close) ------------------------
+    def os_open(self, path, flags, mode=0o777):
+        a = self.abspath(path)
+        acc = flags & (_os.O_WRONLY | _os.O_RDWR)
+        if not hasattr(self, 'fds'):
+            self.fds = {}
+            self.next_fd = 1000
+        if acc == 0:
+            f = self._op('open-r', a, 'os.open')
+            if a in self.dirs:
+                raise _err(errno.EISDIR, path)
+            if a not in self.files:
+                raise _err(errno.ENOENT, path)
+            raw = io.BytesIO(self.files[a])
+        else:
+            f = self._op('open-w', a, 'os.open:%o' % flags)
+            if f and f['kind'] in ('EACCES', 'ENOSPC'):
+                raise _err(errno.EACCES if f['kind'] == 'EACCES' else errno.ENOSPC, path)
+            if a in self.dirs:
+                raise _err(errno.EISDIR, path)
+            if posixpath.dirname(a) not in self.dirs:
+                raise _err(errno.ENOENT, path)
+            if a in self.files:
+                if flags & _os.O_EXCL and flags & _os.O_CREAT:
+                    raise _err(errno.EEXIST, path)
+            elif not flags & _os.O_CREAT:
+                raise _err(errno.ENOENT, path)
+            if flags & _os.O_TRUNC or a not in self.files:
+                self.files[a] = b''
+            raw = _SimWriteRaw(self, a, self.files[a], append=bool(flags & _os.O_APPEND))
+        fd = self.next_fd
+        self.next_fd += 1
+        self.fds[fd] = raw
+        return fd
+
+    def fd_raw(self, fd):
+        try:
+            return self.fds[fd]
+        except (AttributeError, KeyError):
+            raise _err(errno.EBADF, None)
+
     def open(self, file, mode='r', buffering=-1, encoding=None, errors=None, newline=None, closefd=True, opener=None):
         if isinstance(file, int):
-            raise ShimGap('open() on a file descriptor is not modelled')
+            raw = self.fd_raw(file)
+            if 'b' in mode:
+                return raw
+            return io.TextIOWrapper(raw, encoding=encoding or 'utf-8', errors=errors, newline=newline, write_through=True)
         a = self.abspath(file)
         binary = 'b' in mode
         kind = mode.replace('b', '').replace('t', '')
@@ -349,7 +393,7 @@ class SimPath:
 
 _PURE_OS = ('fspath', 'sep', 'name', 'linesep', 'environ', 'getpid', 'urandom', 'getenv', 'pathsep', 'curdir',
             'pardir', 'extsep', 'altsep', 'devnull', 'fsencode', 'fsdecode', 'strerror', 'error', 'PathLike',
-            'cpu_count', 'getuid', 'O_RDONLY', 'O_WRONLY', 'O_CREAT', 'O_TRUNC', 'SEEK_SET', 'SEEK_END', 'SEEK_CUR')
+            'cpu_count', 'getuid', 'O_RDONLY', 'O_WRONLY', 'O_RDWR', 'O_CREAT', 'O_TRUNC', 'O_EXCL', 'O_APPEND', 'O_CLOEXEC', 'O_BINARY', 'SEEK_SET', 'SEEK_END', 'SEEK_CUR')
 
 
 class SimOS:
@@ -395,6 +439,27 @@ class SimOS:
 
     def access(self, p, mode):
         return self._fs.exists(p)
+
+    def open(self, path, flags, mode=0o777, *, dir_fd=None):
+        return self._fs.os_open(path, flags, mode)
+
+    def fdopen(self, fd, *a, **k):
+        return self._fs.open(fd, *a, **k)
+
+    def write(self, fd, data):
+        return self._fs.fd_raw(fd).write(data)
+
+    def read(self, fd, n):
+        return self._fs.fd_raw(fd).read(n)
+
+    def close(self, fd):
+        self._fs.fd_raw(fd).close()
+
+    def fsync(self, fd):
+        self._fs.fd_raw(fd)
+
+    def ftruncate(self, fd, n):
+        self._fs.fd_raw(fd).truncate(n)
 
     def __getattr__(self, name):
         if name in _PURE_OS:
